@@ -69,6 +69,11 @@ def base_configs():
                      {"processor": "ModelFittingContextProcessor", "parameters": {"independent_var_key": "t_values", "dependent_var_key": "y", "context_key": "trend",
                                                                                   "fitting_model": "model:PolynomialFittingModel:degree=1"}},
                      {"processor": "rename:trend:fit"}], {"t_values": [0.0, 1.0, 2.0, 3.0], "y": [1.0, 3.0, 5.0, 7.0]}),
+        # two sweeps of the same kind in one pipeline (generated classes that share a qualified name)
+        ("two-sweeps", [{"processor": "FloatValueDataSource", "parameters": {"value": 2.0}},
+                        sweep("FloatMultiplyOperation", {"factor": "2.0 * t + 3.0 * u"}, {"t": [1.0, 2.0], "u": [1.0]}),
+                        {"processor": "FloatCollectionSumOperation"},
+                        sweep("FloatMultiplyOperation", {"factor": "(t + 1.0) * (u + 2.0)"}, {"t": [3.0], "u": [4.0, 5.0]})], {}),
         # string-defined processors and a slicer: classes generated per node
         ("generated", [sweep("FloatValueDataSource", {"value": "2.0 * t + 3.0 * u"}, {"t": [1.0, 2.0], "u": [1.0]}),
                        {"processor": "slice:FloatMultiplyOperation:FloatDataCollection", "parameters": {"factor": 2.0}},
